@@ -335,5 +335,8 @@ if __name__ == "__main__":
         old = open(OUT).read() if os.path.exists(OUT) else ""
         print("unchanged" if old == text else "CHANGED")
         sys.exit(0 if old == text else 1)
-    open(OUT, "w").write(text)
-    print("wrote", os.path.normpath(OUT))
+    if os.path.exists(OUT) and open(OUT).read() == text:
+        print("unchanged", os.path.normpath(OUT))            # keep the timestamp: nothing to rebuild
+    else:
+        open(OUT, "w").write(text)
+        print("wrote", os.path.normpath(OUT))
